@@ -1085,6 +1085,18 @@ static Outcome json_check(Outcome &o, const std::string &doc, const std::string 
   uint8_t *buf = (uint8_t *)malloc(doc.size());
   if (doc.size()) memcpy(buf, doc.data(), doc.size());
   char *k = exact_cstr(key);
+  // History independence: json_find is a function of its arguments only, so earlier calls -- including calls on truncated
+  // (malformed) documents -- must not influence this one.  Run a few lookups on prefixes of the document first, each in an
+  // exact-size block; their results are not judged here (memory safety of malformed input is C15's business).
+  if (doc.size() >= 4) {
+    size_t cuts[3] = {doc.size() / 3, doc.size() / 2, doc.size() - 1};
+    for (size_t ci = 0; ci < 3; ci++) {
+      uint8_t *pb = (uint8_t *)malloc(cuts[ci] ? cuts[ci] : 1);
+      memcpy(pb, doc.data(), cuts[ci]);
+      (void)shim_json_find(pb, pb + cuts[ci], k);
+      free(pb);
+    }
+  }
   const uint8_t *r = shim_json_find(buf, buf + doc.size(), k);
   ptrdiff_t off = r - buf;
   free(k);
